@@ -1195,6 +1195,14 @@ func runBacktest(args []string) string {
 		for _, k := range strings.Split(args[3], ",") {
 			ss = append(ss, btStrategies[k]())
 		}
+		// names the repository does not know (a typo in the asset list): logged and skipped, the others must still be reported
+		runNames := append([]string(nil), names...)
+		if seed%2 == 1 {
+			for k := 0; k < 1+int(seed/2)%2; k++ {
+				at := r.Intn(len(runNames) + 1)
+				runNames = append(runNames[:at], append([]string{fmt.Sprintf("ZZMISS%d", k)}, runNames[at:]...)...)
+			}
+		}
 		// expected: evaluating each strategy directly on the snapshots inside the look-back window
 		since := time.Now().AddDate(0, 0, -lastDays)
 		expect := map[string]string{}
@@ -1233,7 +1241,7 @@ func runBacktest(args []string) string {
 		case "rec":
 			rep := &recReport{res: map[string]string{}}
 			bt := backtest.NewBacktest(repo, rep)
-			bt.Names, bt.Strategies, bt.Workers, bt.LastDays, bt.Logger = names, ss, workers, lastDays, quiet
+			bt.Names, bt.Strategies, bt.Workers, bt.LastDays, bt.Logger = runNames, ss, workers, lastDays, quiet
 			if err := bt.Run(); err != nil {
 				return "ok runerr"
 			}
@@ -1252,7 +1260,7 @@ func runBacktest(args []string) string {
 		case "data":
 			rep := backtest.NewDataReport()
 			bt := backtest.NewBacktest(repo, rep)
-			bt.Names, bt.Strategies, bt.Workers, bt.LastDays, bt.Logger = names, ss, workers, lastDays, quiet
+			bt.Names, bt.Strategies, bt.Workers, bt.LastDays, bt.Logger = runNames, ss, workers, lastDays, quiet
 			if err := bt.Run(); err != nil {
 				return "ok runerr"
 			}
@@ -1283,7 +1291,7 @@ func runBacktest(args []string) string {
 			rep.WriteStrategyReports = false
 			rep.Logger = quiet
 			bt := backtest.NewBacktest(repo, rep)
-			bt.Names, bt.Strategies, bt.Workers, bt.LastDays, bt.Logger = names, ss, workers, lastDays, quiet
+			bt.Names, bt.Strategies, bt.Workers, bt.LastDays, bt.Logger = runNames, ss, workers, lastDays, quiet
 			if err := bt.Run(); err != nil {
 				return "ok runerr"
 			}
